@@ -123,6 +123,17 @@ def mutants(design, rng, per_class=3):
         inst["conns"][ci][1] = set_at(c, list(path), new)
     for s in pick(lambda s: s[4] == "anon"):
         mutate("bad_member", s, badmember)
+    def extramember(d, m, inst, ci, path):
+        c = inst["conns"][ci][1]
+        sub = at(c, path)
+        if sub["k"] != "anon":
+            return False
+        new = copy.deepcopy(sub)
+        m["sigs"].append({"n": "zz_extra", "w": 1, "port": False, "dir": "none"})
+        new["fields"].append(["zz_no_such_member", {"k": "sig", "n": "zz_extra"}])
+        inst["conns"][ci][1] = set_at(c, list(path), new)
+    for s in pick(lambda s: s[4] == "anon"):
+        mutate("extra_member", s, extramember)
     # 5. out-of-range / empty index
     def badindex(d, m, inst, ci, path):
         c = inst["conns"][ci][1]
